@@ -615,9 +615,9 @@ class Generator:
             return "stub_swap_cells(%s, %s, %s, %s);%s" % (fixrecv(m.group("x")), m.group("a"), fixrecv(m.group("y")), m.group("b"), nl)
 
         def fixrecv(x):
-            # a Vec field needs an explicit reborrow as a slice; a `&mut [T]` local is passed as is
+            # a field place needs an explicit `&mut`; a `&mut [T]` local is passed as is
             if x.startswith("self."):
-                return "%s.as_mut_slice()" % x
+                return "&mut %s" % x
             return x
 
         new = pat.sub(rep, txt)
